@@ -152,6 +152,67 @@ class Check:
             self.cov["kernel_checked_cases"] = self.cov.get("kernel_checked_cases", 0) + len(small)
         return {"cases": allc, "impl": impl, "model": model, "oracle": orc}
 
+    def correspondence_py(self, area, cases, impl_outcomes, oracle_msgs=None, kernel_samples=None):
+        """Correspondence for areas whose implementation side is orchestrated from Python (CLI
+        histories): `cases` are case texts (`op\targs`, no id), `impl_outcomes[i]` the canonical
+        outcome observed on the implementation for case i, `oracle_msgs[i]` a list of property-oracle
+        failures on the implementation (independent of the model).  Runs the extracted model
+        (coq/Model/<Area>Run.v run_line) on the same cases, compares, re-evaluates a sample in the kernel."""
+        oracle_msgs = oracle_msgs or {}
+        ok, exe, log = core.build_model(area)
+        if not ok:
+            self.violations.append(("build", "model extraction failed", "theorem-or-correspondence: extraction of area %s\n%s" % (area, log[-3000:]), False))
+            return None
+        cases_path = os.path.join(self.work, "cases_%s.tsv" % area)
+        with open(cases_path, "w") as f:
+            for i, c in enumerate(cases):
+                f.write("%d\t%s\n" % (i, c))
+        model_out = os.path.join(self.work, "model.out_" + area)
+        if not core.run_model(exe, cases_path, model_out):
+            self.violations.append(("build", "model run failed", "theorem-or-correspondence: modelrun %s" % area, False))
+            return None
+        model = core.read_tsv(model_out)
+        known = {f["case"]: f for f in self.findings}
+        n_dis = 0
+        for i, c in enumerate(cases):
+            a, b = impl_outcomes[i], model.get(str(i), ["<missing>"])[0]
+            op = c.split("\t")[0]
+            self.hist[op] = self.hist.get(op, 0) + 1
+            fails = []
+            if a != b:
+                n_dis += 1
+                fails.append(("correspondence", "model and implementation disagree on op %s" % op,
+                              "case: %s\nimplementation: %s\nmodel: %s" % (c, a, b), False))
+            for msg in oracle_msgs.get(i, []):
+                fails.append(("oracle", msg, "case: %s\nimplementation: %s\noracle: %s" % (c, a, msg), True))
+            for fl in fails:
+                if c in known:
+                    self.finding_hit.add(known[c]["id"])
+                else:
+                    self.violations.append(fl)
+        self.cov["evaluations"] += len(cases)
+        self.cov["distinct_nontrivial"] += len(set(cases))
+        self.cov["traces_validated_against_impl"] += len(cases)
+        self.cov["disagreements_checked"] += n_dis
+        rnd = random.Random(self.seed)
+        for i in rnd.sample(range(len(cases)), min(3, len(cases))):
+            self.cov["samples"].append({"case": cases[i][:400], "implementation": impl_outcomes[i][:400]})
+        k = kernel_samples if kernel_samples is not None else (10 if self.tier == "quick" else 100)
+        idx = [i for i in rnd.sample(range(len(cases)), min(k, len(cases))) if len(cases[i]) < 20000]
+        if idx:
+            ok, answers, log = core.kernel_eval(area, ["%d\t%s" % (i, cases[i]) for i in idx])
+            if not ok:
+                self.violations.append(("kernel", "kernel-side evaluation of the case sample failed",
+                                        "theorem-or-correspondence: vm_compute evaluation of %sRun.run_line\n%s" % (area, log[-2000:]), False))
+            else:
+                for i, ans in zip(idx, answers):
+                    want = "%d\t%s" % (i, model.get(str(i), ["<missing>"])[0])
+                    if ans != want:
+                        self.violations.append(("kernel", "extracted model differs from kernel evaluation",
+                                                "case: %s\nextracted: %s\nkernel: %s" % (cases[i], want, ans), False))
+                self.cov["kernel_checked_cases"] = self.cov.get("kernel_checked_cases", 0) + len(idx)
+        return model
+
     # ------------------------------------------------------------------ finish
     def search_failing_input(self):
         """a proof or the correspondence broke but no oracle failed on the cases of this run:
